@@ -96,7 +96,7 @@ func (in *Interp) callNative(a *act, nat *Native, args []*Value) *Value {
 		fail("toFloat: bad type")
 	case "toStr":
 		arity(nat.Name, args, 1)
-		s, why := ToStr(args[0], in.Cfg.RefuseSharedText)
+		s, why := ToStr(args[0], in.onSharedText)
 		if why != "" {
 			refuse("%s", why)
 		}
@@ -104,7 +104,7 @@ func (in *Interp) callNative(a *act, nat *Native, args []*Value) *Value {
 	case "repr":
 		// GUIDE: 将对象转化为供解释器读取的形式
 		arity(nat.Name, args, 1)
-		s, why := ToRepr(args[0], in.Cfg.RefuseSharedText)
+		s, why := ToRepr(args[0], in.onSharedText)
 		if why != "" {
 			refuse("%s", why)
 		}
@@ -141,7 +141,7 @@ func (in *Interp) callNative(a *act, nat *Native, args []*Value) *Value {
 	case "Array.sum":
 		// GUIDE: [1,2,3].sum() 加和 6
 		arity(nat.Name, args, 0)
-		return keepSum(nat.Self.Arr.List, int64(len(nat.Self.Arr.List)), 0)
+		return in.keepSum(nat.Self.Arr, int64(len(nat.Self.Arr.List)), 0)
 	case "Array.kh", "Array.kl":
 		// GUIDE: .kl() 取最低的1个值; .kl(2) 取最低的2个值并相加; kh likewise
 		n := int64(1)
@@ -150,7 +150,7 @@ func (in *Interp) callNative(a *act, nat *Native, args []*Value) *Value {
 		}
 		if len(args) == 1 {
 			if args[0].K != KInt {
-				refuse("%s with a non-int count", nat.Name)
+				fail("%s: count must be an int", nat.Name) // by code funcArrayKeepLow/High
 			}
 			n = args[0].I
 		}
@@ -161,7 +161,7 @@ func (in *Interp) callNative(a *act, nat *Native, args []*Value) *Value {
 		if nat.Name == "Array.kl" {
 			order = -1
 		}
-		return keepSum(nat.Self.Arr.List, n, order)
+		return in.keepSum(nat.Self.Arr, n, order)
 	case "Array.push":
 		// GUIDE: [1,2,3].push(4) 加入一个值 → [1,2,3,4] (the array itself)
 		arity(nat.Name, args, 1)
@@ -170,6 +170,7 @@ func (in *Interp) callNative(a *act, nat *Native, args []*Value) *Value {
 	case "Array.pop":
 		// GUIDE: 取最后方的一个值，并将其弹出数组; an empty array gives null (by code funcArrayPop)
 		arity(nat.Name, args, 0)
+		needOrder(nat.Self, "pop")
 		l := nat.Self.Arr.List
 		if len(l) == 0 {
 			return Null()
@@ -179,6 +180,7 @@ func (in *Interp) callNative(a *act, nat *Native, args []*Value) *Value {
 		return v
 	case "Array.shift":
 		arity(nat.Name, args, 0)
+		needOrder(nat.Self, "shift")
 		l := nat.Self.Arr.List
 		if len(l) == 0 {
 			return Null()
@@ -193,12 +195,17 @@ func (in *Interp) callNative(a *act, nat *Native, args []*Value) *Value {
 		arity(nat.Name, args, 0)
 		return Int(int64(len(nat.Self.Dict.M)))
 	case "Dict.keys", "Dict.values", "Dict.items":
+		// GUIDE does not list the dict methods; they are registered in types_methods.go.  The
+		// order of the result is unspecified (map order): the array is marked Unordered.
 		arity(nat.Name, args, 0)
-		if len(nat.Self.Dict.M) > 1 {
-			refuse("%s of a dict with several entries (order unspecified)", nat.Name)
-		}
 		var out []*Value
-		for k, v := range nat.Self.Dict.M {
+		keys := make([]string, 0, len(nat.Self.Dict.M))
+		for k := range nat.Self.Dict.M {
+			keys = append(keys, k)
+		}
+		sort.Strings(keys)
+		for _, k := range keys {
+			v := nat.Self.Dict.M[k]
 			switch nat.Name {
 			case "Dict.keys":
 				out = append(out, Str(k))
@@ -208,33 +215,73 @@ func (in *Interp) callNative(a *act, nat *Native, args []*Value) *Value {
 				out = append(out, Arr([]*Value{Str(k), v}))
 			}
 		}
-		return Arr(out)
+		res := Arr(out)
+		res.Arr.Unordered = true
+		return res
 	}
 	refuse("native function %q", nat.Name)
 	return nil
 }
 
 // keepSum adds the n highest (order 1), lowest (order -1) or all (order 0)
-// elements.  All-int arrays give an int, a float element makes the result a
-// float.  Non-numeric elements and sums beyond 2^53 are refused (the
-// implementation accumulates in float64 and skips other types; the guide shows
-// neither).
-func keepSum(list []*Value, n int64, order int) *Value {
+// elements (GUIDE "数组函数": sum 加和; kl(2) 取最低的2个值并相加).  All-int arrays
+// give the int sum; a float element makes the result a float (every element
+// converted, added in list / sorted order).  Non-numeric elements are refused
+// (the implementation skips them; the guide shows only numbers).
+func (in *Interp) keepSum(arr *Array, n int64, order int) *Value {
+	list := arr.List
 	allInt := true
-	nums := make([]float64, 0, len(list))
 	for _, e := range list {
 		switch e.K {
 		case KInt:
-			if e.I > 1<<52 || e.I < -(1<<52) {
-				refuse("sum/kh/kl over integers beyond 2^52")
-			}
-			nums = append(nums, float64(e.I))
 		case KFlt:
 			allInt = false
-			nums = append(nums, e.F)
 		default:
 			refuse("sum/kh/kl over a non-numeric element")
 		}
+	}
+	if allInt {
+		ints := make([]int64, 0, len(list))
+		for _, e := range list {
+			ints = append(ints, e.I)
+		}
+		switch order {
+		case 1:
+			sort.Slice(ints, func(i, j int) bool { return ints[i] > ints[j] })
+		case -1:
+			sort.Slice(ints, func(i, j int) bool { return ints[i] < ints[j] })
+		}
+		var sum int64
+		big := false
+		for _, x := range ints {
+			if x > 1<<53 || x < -(1<<53) {
+				big = true
+			}
+		}
+		for i := int64(0); i < n && i < int64(len(ints)); i++ {
+			sum += ints[i]
+			if sum > 1<<53 || sum < -(1<<53) {
+				big = true
+			}
+		}
+		if big {
+			in.corner(CornerBigSum, "sum/kh/kl of integers beyond 2^53")
+		}
+		return Int(sum)
+	}
+	nums := make([]float64, 0, len(list))
+	for _, e := range list {
+		if e.K == KInt {
+			if e.I > 1<<53 || e.I < -(1<<53) {
+				refuse("float sum over an integer beyond 2^53")
+			}
+			nums = append(nums, float64(e.I))
+		} else {
+			nums = append(nums, e.F)
+		}
+	}
+	if arr.orderMatters() {
+		refuse("float sum over an array whose order is unspecified")
 	}
 	switch order {
 	case 1:
@@ -245,15 +292,7 @@ func keepSum(list []*Value, n int64, order int) *Value {
 	sum := 0.0
 	for i := int64(0); i < n && i < int64(len(nums)); i++ {
 		sum += nums[i]
-		if math.Abs(sum) > 1<<52 && allInt {
-			refuse("sum/kh/kl beyond 2^52")
-		}
 	}
-	if allInt {
-		return Int(int64(sum))
-	}
-	// float sums depend on the order of equal-keyed elements only through their
-	// values, which are equal; the order of addition is the sorted order
 	return fltResult(sum)
 }
 
